@@ -493,41 +493,41 @@ void put_grid(std::ostream& os, const std::vector<dj::beatgrid_marker>& g)
 }
 }  // namespace
 
-static void snapshot_text(std::ostream& os, const dj::track_snapshot& s)
+// One fact per snapshot field, formatted exactly like the corresponding getter fact, so that "getter == snapshot field" is a string comparison.
+static void snapshot_facts(Obs& o, const std::string& p, const dj::track_snapshot& s)
 {
-    os << "album="; put_opt(os, s.album);
-    os << " artist="; put_opt(os, s.artist);
-    os << " loud="; put_opt(os, s.average_loudness);
-    os << " grid="; put_grid(os, s.beatgrid);
-    os << " bitrate="; put_opt(os, s.bitrate);
-    os << " bpm="; put_opt(os, s.bpm);
-    os << " comment="; put_opt(os, s.comment);
-    os << " composer="; put_opt(os, s.composer);
-    os << " duration="; if (s.duration) os << s.duration->count(); else os << "<none>";
-    os << " file_bytes="; put_opt(os, s.file_bytes);
-    os << " genre="; put_opt(os, s.genre);
-    os << " cues=";
-    for (auto& c : s.hot_cues) put_cue(os, c);
-    os << " key="; if (s.key) os << (int)*s.key; else os << "<none>";
-    os << " last_played="; if (s.last_played_at) os << std::chrono::duration_cast<std::chrono::milliseconds>(s.last_played_at->time_since_epoch()).count(); else os << "<none>";
-    os << " loops=";
-    for (auto& c : s.loops) put_loop(os, c);
-    os << " main_cue="; put_opt(os, s.main_cue);
-    os << " publisher="; put_opt(os, s.publisher);
-    os << " rating="; put_opt(os, s.rating);
-    os << " path="; put_opt(os, s.relative_path);
-    os << " samples="; put_opt(os, s.sample_count);
-    os << " rate="; put_opt(os, s.sample_rate);
-    os << " title="; put_opt(os, s.title);
-    os << " track_number="; put_opt(os, s.track_number);
-    os << " waveform="; put_waveform(os, s.waveform);
-    os << " year="; put_opt(os, s.year);
+    auto F = [&](const std::string& n, const std::function<void(std::ostream&)>& f) { o.fact(p + "snapshot." + n, f); };
+    F("album", [&](std::ostream& os) { put_opt(os, s.album); });
+    F("artist", [&](std::ostream& os) { put_opt(os, s.artist); });
+    F("average_loudness", [&](std::ostream& os) { put_opt(os, s.average_loudness); });
+    F("beatgrid", [&](std::ostream& os) { put_grid(os, s.beatgrid); });
+    F("bitrate", [&](std::ostream& os) { put_opt(os, s.bitrate); });
+    F("bpm", [&](std::ostream& os) { put_opt(os, s.bpm); });
+    F("comment", [&](std::ostream& os) { put_opt(os, s.comment); });
+    F("composer", [&](std::ostream& os) { put_opt(os, s.composer); });
+    F("duration", [&](std::ostream& os) { if (s.duration) os << s.duration->count(); else os << "<none>"; });
+    F("file_bytes", [&](std::ostream& os) { put_opt(os, s.file_bytes); });
+    F("genre", [&](std::ostream& os) { put_opt(os, s.genre); });
+    F("hot_cues", [&](std::ostream& os) { for (auto& c : s.hot_cues) put_cue(os, c); });
+    F("key", [&](std::ostream& os) { if (s.key) os << (int)*s.key; else os << "<none>"; });
+    F("last_played_at", [&](std::ostream& os) { if (s.last_played_at) os << std::chrono::duration_cast<std::chrono::milliseconds>(s.last_played_at->time_since_epoch()).count(); else os << "<none>"; });
+    F("loops", [&](std::ostream& os) { for (auto& c : s.loops) put_loop(os, c); });
+    F("main_cue", [&](std::ostream& os) { put_opt(os, s.main_cue); });
+    F("publisher", [&](std::ostream& os) { put_opt(os, s.publisher); });
+    F("rating", [&](std::ostream& os) { put_opt(os, s.rating); });
+    F("relative_path", [&](std::ostream& os) { if (s.relative_path) os << '"' << hex(*s.relative_path) << '"'; else os << "<none>"; });
+    F("sample_count", [&](std::ostream& os) { put_opt(os, s.sample_count); });
+    F("sample_rate", [&](std::ostream& os) { put_opt(os, s.sample_rate); });
+    F("title", [&](std::ostream& os) { put_opt(os, s.title); });
+    F("track_number", [&](std::ostream& os) { put_opt(os, s.track_number); });
+    F("waveform", [&](std::ostream& os) { put_waveform(os, s.waveform); });
+    F("year", [&](std::ostream& os) { put_opt(os, s.year); });
 }
 std::string snapshot_str(const dj::track_snapshot& s)
 {
-    std::ostringstream os;
-    snapshot_text(os, s);
-    return os.str();
+    Obs o;
+    snapshot_facts(o, "", s);
+    return o.os.str();
 }
 
 std::string observe_track(const dj::track& t)
@@ -566,9 +566,30 @@ std::string observe_track(const dj::track& t)
     o.fact(p + "track_number", [&](std::ostream& os) { put_opt(os, t.track_number()); });
     o.fact(p + "waveform", [&](std::ostream& os) { put_waveform(os, t.waveform()); });
     o.fact(p + "year", [&](std::ostream& os) { put_opt(os, t.year()); });
-    o.fact(p + "snapshot", [&](std::ostream& os) { snapshot_text(os, t.snapshot()); });
+    try
+    {
+        snapshot_facts(o, p, t.snapshot());
+    }
+    catch (const std::exception& e)
+    {
+        o.os << p << "snapshot = !throws " << demangle(typeid(e).name()) << "\n";
+    }
     o.fact(p + "containing_crates", [&](std::ostream& os) { auto v = t.containing_crates(); std::vector<int64_t> ids; for (auto& c : v) ids.push_back(c.id()); std::sort(ids.begin(), ids.end()); for (auto i : ids) os << i << ","; });
     return o.os.str();
+}
+
+std::map<std::string, std::string> facts_of(const std::string& observation, const std::string& strip_prefix)
+{
+    std::map<std::string, std::string> m;
+    for (auto& line : split(observation, '\n'))
+    {
+        auto e = line.find(" = ");
+        if (e == std::string::npos) continue;
+        std::string n = line.substr(0, e);
+        if (!strip_prefix.empty() && n.rfind(strip_prefix, 0) == 0) n = n.substr(strip_prefix.size());
+        m[n] = line.substr(e + 3);
+    }
+    return m;
 }
 
 std::string observe(World& w, bool include_track_fields)
